@@ -2407,6 +2407,42 @@ fn stale_disconnect_does_not_touch_a_later_connection() {
     report(name, "C14", "slot reuse by takeover / by another client, then the ended connection's late Disconnect", cases, fail);
 }
 
+/// C14 (last sentence): the late PublishWill of an ENDED connection must not act on the connection the same client id
+/// established afterwards.  Wills are keyed by client id and the signal names nothing else, so on the pinned tree it
+/// publishes (and uses up) the later connection's will while that connection is alive: KNOWN FINDING, own obligation.
+// @native props=C14 tier=quick fn=Router::events (late PublishWill of an ended connection)+handle_last_will
+#[test]
+fn stale_publishwill_does_not_fire_the_will_of_a_later_connection() {
+    let name = "rumqttd::Router::events#stale_publishwill_fires_the_later_connections_will";
+    let mut cases = 0u64;
+    let mut fail: Option<String> = None;
+    for clean in [true, false] {
+        cases += 1;
+        let desc = format!("client a (clean-session {}): connection 1 with will W1 loses its link; a connects again with will W2; only then the PublishWill of connection 1 arrives; later connection 2 loses its link and its own PublishWill arrives", clean);
+        let mut r = new_router();
+        let w = connect(&mut r, "watch", true).unwrap();
+        send(&mut r, &w, vec![subscribe(1, &[("will/#", 0)])]);
+        let _ = drain(&mut r, &w);
+        let c1 = connect_with_will(&mut r, "a", clean, Some(("will/a", "W1", 0, false))).unwrap();
+        r.events(c1.id, Event::Disconnect);
+        settle(&mut r);
+        let c2 = connect_with_will(&mut r, "a", clean, Some(("will/a", "W2", 0, false))).unwrap();
+        r.events(c1.id, Event::PublishWill(("a".to_owned(), None)));
+        settle(&mut r);
+        let while_alive: Vec<String> = receive_all(&mut r, &w).into_iter().map(|g| g.1).collect();
+        r.events(c2.id, Event::Disconnect);
+        settle(&mut r);
+        r.events(c2.id, Event::PublishWill(("a".to_owned(), None)));
+        settle(&mut r);
+        let at_end: Vec<String> = receive_all(&mut r, &w).into_iter().map(|g| g.1).collect();
+        if while_alive.iter().any(|m| m == "W2") || !at_end.iter().any(|m| m == "W2") {
+            fail = Some(format!("input=[{}] detail=[published while connection 2 was alive: {:?}; published when it ended: {:?}; W2 belongs to connection 2 and is due exactly when that ends]", desc, while_alive, at_end));
+            break;
+        }
+    }
+    report(name, "C14", "clean / persistent client id reconnecting before the late PublishWill of its ended connection arrives", cases, fail);
+}
+
 /// C09 with QoS 2 subscriptions: the window is freed by PUBREC (the broker answers PUBREL, the client PUBCOMP) and
 /// forwarding of the backlog resumes on those acknowledgements without any other stimulus
 // @native props=C09,C06,C01 tier=quick fn=Router::handle_device_payload(PubRec/PubComp arms)+consume+forward_device_data
